@@ -188,6 +188,7 @@ func Run(c *core.Ctx, replay string) (*core.Result, error) {
 		rng := rand.New(rand.NewSource(c.Seed))
 		for k := 0; k < nProg; k++ {
 			o := absprog.Full()
+			o.CaseTwins = true
 			o.NStructs = 3 + rng.Intn(4)
 			o.MaxFields = 6
 			p := absprog.Random(k+1, rng, o)
